@@ -22,7 +22,8 @@ RULE = ("pairs constructed to be equal: quantities x*u and (x*S(u)/S(v))*v over 
         "related by the affine reference maps; every ordered unit pair of every type (equal iff same scale); terms in "
         "different spellings (permutations, regroupings, unit vs its definition); exchange rates given with different "
         "multiples. The pair is first confirmed equal by the library's own ==, then hash equality, len({a,b}) == 1 and "
-        "dict lookup are required. Non-trivial = a is not b and the representation (unit, numeric type, spelling) "
+        "dict lookup are required; a 'refless' part compares all unit pairs (and quantities in them) of types without "
+        "reference unit whose units carry scales relative to different bare units. Non-trivial = a is not b and the representation (unit, numeric type, spelling) "
         "differs; distinct by digest")
 
 LIN = cat.LINEAR_TYPES
